@@ -92,6 +92,132 @@ class FlipCmp(ast.NodeTransformer):
         return node
 
 
+
+def _names(n):
+    return {x.id for x in ast.walk(n) if isinstance(x, ast.Name)}
+
+
+def _has_effect(n):
+    return any(isinstance(x, (ast.Call, ast.Await, ast.Yield, ast.YieldFrom,
+                              ast.NamedExpr)) for x in ast.walk(n))
+
+
+class Hoist(ast.NodeTransformer):
+    """x = f(a.b, ...)  ->  _h1 = a.b; x = f(_h1, ...)   (the first
+    positional argument of a call that is the whole value of a simple
+    statement, when it is a plain attribute chain on a name: evaluated
+    unconditionally and first either way)"""
+    def __init__(self):
+        self.n = 0
+
+    def _block(self, body):
+        out = []
+        for st in body:
+            st = self.generic_visit(st)
+            call = None
+            if isinstance(st, (ast.Assign, ast.Expr, ast.Return)) and \
+                    isinstance(st.value, ast.Call):
+                call = st.value
+            if call is not None and call.args and \
+                    isinstance(call.args[0], ast.Attribute) and \
+                    isinstance(call.func, (ast.Name, ast.Attribute)) and \
+                    not _has_effect(call.func) and \
+                    not _has_effect(call.args[0]):
+                a0 = call.args[0]
+                base = a0
+                while isinstance(base, ast.Attribute):
+                    base = base.value
+                if isinstance(base, ast.Name):
+                    self.n += 1
+                    tmp = f'_h{self.n}'
+                    out.append(ast.Assign(
+                        targets=[ast.Name(id=tmp, ctx=ast.Store())],
+                        value=a0, lineno=st.lineno))
+                    call.args[0] = ast.Name(id=tmp, ctx=ast.Load())
+            out.append(st)
+        return out
+
+    def generic_visit(self, node):
+        for f in ('body', 'orelse', 'finalbody'):
+            b = getattr(node, f, None)
+            if isinstance(b, list) and b and isinstance(b[0], ast.stmt):
+                setattr(node, f, self._block(b))
+        if isinstance(node, ast.Try):
+            for h in node.handlers:
+                h.body = self._block(h.body)
+        return node
+
+
+class Reorder(ast.NodeTransformer):
+    """swap adjacent single-name assignments whose values have no calls and
+    which do not mention each other's target"""
+    def _block(self, body):
+        body = [self.generic_visit(st) for st in body]
+        i = 0
+        while i + 1 < len(body):
+            a, b = body[i], body[i + 1]
+            if all(isinstance(x, ast.Assign) and len(x.targets) == 1 and
+                   isinstance(x.targets[0], ast.Name) and
+                   not _has_effect(x.value) for x in (a, b)):
+                ta, tb = a.targets[0].id, b.targets[0].id
+                if ta != tb and ta not in _names(b.value) and \
+                        tb not in _names(a.value):
+                    body[i], body[i + 1] = b, a
+                    i += 2
+                    continue
+            i += 1
+        return body
+
+    generic_visit = Hoist.generic_visit
+
+
+class Early(ast.NodeTransformer):
+    """a trailing `if c: body` (no else) of a function becomes
+    `if not c: return` + body; of a loop body, `if not c: continue` + body"""
+    def _neg(self, t):
+        if isinstance(t, ast.UnaryOp) and isinstance(t.op, ast.Not):
+            return t.operand
+        return ast.UnaryOp(op=ast.Not(), operand=t)
+
+    def _rewrite(self, body, jump):
+        if body and isinstance(body[-1], ast.If) and not body[-1].orelse \
+                and len(body[-1].body) >= 2:
+            last = body[-1]
+            return body[:-1] + [ast.If(test=self._neg(last.test),
+                                       body=[jump], orelse=[],
+                                       lineno=last.lineno)] + last.body
+        return body
+
+    def visit_FunctionDef(self, node):
+        self.generic_visit(node)
+        node.body = self._rewrite(node.body, ast.Return(value=None))
+        return node
+    visit_AsyncFunctionDef = visit_FunctionDef
+
+    def visit_For(self, node):
+        self.generic_visit(node)
+        node.body = self._rewrite(node.body, ast.Continue())
+        return node
+    visit_While = visit_For
+    visit_AsyncFor = visit_For
+
+
+class Log(ast.NodeTransformer):
+    """a logging call before every statement of every block"""
+    def _block(self, body):
+        out = []
+        for k, st in enumerate(body):
+            st = self.generic_visit(st)
+            doc = (k == 0 and isinstance(st, ast.Expr) and
+                   isinstance(st.value, ast.Constant))
+            if not doc and not isinstance(st, (ast.Global, ast.Nonlocal)):
+                out.append(ast.parse("logger.debug('trace')").body[0])
+            out.append(st)
+        return out
+
+    generic_visit = Hoist.generic_visit
+
+
 MODE = 'rename'
 
 
@@ -117,6 +243,14 @@ def renamed_source(m, fnodes):
             i = 1 if (new.body and isinstance(new.body[0], ast.Expr)
                       and isinstance(new.body[0].value, ast.Constant)) else 0
             new.body.insert(i, ast.parse('_noop = None').body[0])
+        elif MODE == 'hoist':
+            new = Hoist().generic_visit(copy.deepcopy(fn))
+        elif MODE == 'reorder':
+            new = Reorder().generic_visit(copy.deepcopy(fn))
+        elif MODE == 'early':
+            new = Early().visit(copy.deepcopy(fn))
+        elif MODE == 'log':
+            new = Log().generic_visit(copy.deepcopy(fn))
         elif MODE == 'flip':
             new = FlipCmp().visit(copy.deepcopy(fn))
         elif MODE == 'swap':
@@ -201,6 +335,10 @@ if __name__ == '__main__':
         del sys.argv[1]
     elif sys.argv[1:2] == ['--noop']:
         MODE = 'noop'
+        del sys.argv[1]
+    elif sys.argv[1:2] and sys.argv[1] in ('--hoist', '--reorder', '--early',
+                                           '--log'):
+        MODE = sys.argv[1][2:]
         del sys.argv[1]
     ps = sys.argv[1:] or ['C%02d' % i for i in range(1, 21) if i != 10]
     sys.exit(main(ps))
